@@ -67,6 +67,35 @@ def optStr (j : Json) : Except String (Option String) :=
   | .str s => .ok (some s)
   | _ => bad
 
+def tensorOfJson (j : Json) : Except String (List Nat × List Int) := do
+  .ok (← asList asNat (← field j "t"), ← asList asInt (← field j "d"))
+
+def valOfJson (j : Json) : Except String Val :=
+  match j.getObjVal? "tup" with
+  | .ok xs => do .ok (.tup (← asList tensorOfJson xs))
+  | .error _ => do
+      let (sh, d) ← tensorOfJson j
+      .ok (.tensor sh d)
+
+def intJson (i : Int) : Json := Json.num (JsonNumber.fromInt i)
+
+def tensorToJson (sh : List Nat) (d : List Int) : Json :=
+  Json.mkObj [("t", .arr (sh.map (fun (n : Nat) => Json.num (JsonNumber.fromNat n))).toArray), ("d", .arr (d.map intJson).toArray)]
+
+def valToJson : Val → Json
+  | .tensor sh d => tensorToJson sh d
+  | .tup xs => Json.mkObj [("tup", .arr (xs.map (fun p => tensorToJson p.1 p.2)).toArray)]
+
+def pathToJson (p : Path) : Json := .arr (p.map Json.str).toArray
+
+def varsOfJson (j : Json) : Except String Vars := do
+  let cols ← asList asStr (← field j "cols")
+  let vars ← asList (fun kv => do
+      let p ← asList asStr (← argAt kv 0)
+      let v ← valOfJson (← argAt kv 1)
+      pure (p, v)) (← field j "vars")
+  .ok { cols, vars }
+
 mutual
   partial def stmtOfJson (j : Json) : Except String SProg := do
     let op ← asStr (← field j "op")
@@ -96,6 +125,9 @@ mutual
         .ok (.perturb (← asStr (← field j "c")) (← asStr (← field j "n")) (← exprOfJson (← field j "e")))
     | "child" => do
         .ok (.child (← asStr (← field j "cls")) (← optStr (← field j "name")) (← progOfJson (← field j "body")))
+    | "nested" => do
+        .ok (.nested (← progOfJson (← field j "body")) (← lfOfJson (← field j "m")) (← varsOfJson (← field j "vars"))
+              (← exprOfJson (← field j "e")))
     | "call" => do .ok (.call (← asNat (← field j "slot")) (← exprOfJson (← field j "e")) (← optNat (j.getObjVal? "w")))
     | _ => bad
 
@@ -103,35 +135,6 @@ mutual
     let stmts ← (← arr j).toList.mapM stmtOfJson
     .ok (stmts.foldr (fun st acc => SProg.seq st acc) SProg.skip)
 end
-
-def tensorOfJson (j : Json) : Except String (List Nat × List Int) := do
-  .ok (← asList asNat (← field j "t"), ← asList asInt (← field j "d"))
-
-def valOfJson (j : Json) : Except String Val :=
-  match j.getObjVal? "tup" with
-  | .ok xs => do .ok (.tup (← asList tensorOfJson xs))
-  | .error _ => do
-      let (sh, d) ← tensorOfJson j
-      .ok (.tensor sh d)
-
-def intJson (i : Int) : Json := Json.num (JsonNumber.fromInt i)
-
-def tensorToJson (sh : List Nat) (d : List Int) : Json :=
-  Json.mkObj [("t", .arr (sh.map (fun (n : Nat) => Json.num (JsonNumber.fromNat n))).toArray), ("d", .arr (d.map intJson).toArray)]
-
-def valToJson : Val → Json
-  | .tensor sh d => tensorToJson sh d
-  | .tup xs => Json.mkObj [("tup", .arr (xs.map (fun p => tensorToJson p.1 p.2)).toArray)]
-
-def pathToJson (p : Path) : Json := .arr (p.map Json.str).toArray
-
-def varsOfJson (j : Json) : Except String Vars := do
-  let cols ← asList asStr (← field j "cols")
-  let vars ← asList (fun kv => do
-      let p ← asList asStr (← argAt kv 0)
-      let v ← valOfJson (← argAt kv 1)
-      pure (p, v)) (← field j "vars")
-  .ok { cols, vars }
 
 def varsToJson (V : Vars) : Json :=
   Json.mkObj [("cols", .arr (V.cols.map Json.str).toArray),
